@@ -230,3 +230,39 @@ def check_C08(tier: str, seed: int) -> int:
     v.assumptions = ["h3_to_parent is an arbitrary function in the theorems; the recorded parent table is used in the runs",
                      "request arrivals during a run use fresh ids (re-adds are covered by the function-level theorem Hive.C08.ops)"]
     return v.finish()
+
+
+STACK_BUDGET = {"quick": 48, "thorough": 1000}
+
+
+@register("C09")
+def check_C09(tier: str, seed: int) -> int:
+    v = fw.Verdict("C09", tier, seed, "proof")
+    ps = fw.ProofStatus("C09", ["Properties.C09"])
+    n_hist, steps = HIST_BUDGET[tier]
+    hl = layers.hist_layer(seed, n_hist, steps)
+    ok1 = use_hist_layer(v, "C09", hl, ["C09"])
+    sl = layers.stack_layer(seed, STACK_BUDGET[tier])
+    ok2 = use_simple_layer(v, "C09", sl, "stack", ["C09"])
+    if (not ps.ok or not ok1 or not ok2) and not v.violations:
+        big = layers.hist_layer(seed + 7919, n_hist * 6, steps)
+        use_hist_layer(v, "C09", big, ["C09"])
+        v.notes.append(f"escalated search: {big['records']} further records")
+    if not ps.ok:
+        v.broken(f"proof obligation for C09: {ps.failing_obligation()}", {"theorem_or_build": ps.failing_obligation()})
+    cov = {**fw.proof_coverage(ps), **hist_coverage(hl)}
+    probes = [t for t in hl["triples"] if t[1].startswith("probe:")]
+    cov["evaluations"] = hl["records"] + sl["steps"]
+    cov["distinct_nontrivial"] = len(probes) + len(sl["shapes"])
+    cov["rule"] = ("(a) probes: one random instruction (any kind, any target incl. missing/remote/wrong fleet/no capacity/malformed link) applied ALONE through the real "
+                   "apply_instructions to states reached in adversarial histories; Lean checks on the implementation's result that either the whole canonical state "
+                   "(entities, counters, request records, indexes, applied_instructions) is unchanged or the vehicle is in the instructed activity and the instruction is recorded; "
+                   "(b) every multi-instruction phase compared with the model on the whole state; (c) whole steps through the real StepSimulation.update with 1-3 scripted generators "
+                   "plus the vehicles' own drivers: the list handed to apply_instructions vs the Lean model finalInstructions. distinct_nontrivial = distinct "
+                   "(previous activity, probed instruction kind, resulting activity) triples + distinct (generators, drivers present, max instructions per vehicle) shapes")
+    cov["samples"] = ([sl["sample"]] if sl.get("sample") else []) + cov.get("samples", [])
+    cov["probe_triples"] = ["→".join(t) for t in probes][:300]
+    cov["stack_steps"] = sl["steps"]
+    v.coverage = cov
+    v.assumptions = ["reports filed by a transition that is later rejected are not rolled back by the implementation's reporter (only the simulation state is compared)"]
+    return v.finish()
